@@ -11,7 +11,7 @@ generated here (coq/Gen/Cases_C05_*.v):
       (exact when representable, < 1 unit otherwise, order kept), every specified style value (six significant digits) and the
       snapshots at probe times (documents whose offsets are all representable) are compared;
   (c) the re-read must not log."""
-import io, os, re, sys, time, dataclasses, enum, math
+import io, os, re, sys, time, dataclasses, enum, math, collections
 from fractions import Fraction as F
 import xml.etree.ElementTree as et
 import common as C
@@ -503,24 +503,32 @@ def main():
             "open sesame #010203 after", "both 1em", "outside", "red 2px", "1px", "true", "false", "left", "right", "lr", "tb", "-1.5%", "+2c", ".5em", "5.px", "1e3px",
             "1 px", "px", "1px\n", "12rh", "12rw", "100%", "250%", "-250%", "center center", "top left", "10px 20px 30px", "left 10px", "bottom 5% right 1c"]
     ctx = None
+    colgen = IC.ColorGen(rng); color_cats = collections.Counter(); ncolor = 0
     for i in range(nx):
         r = rng.random()
-        if r < 0.55 and written:
+        if r < 0.5 and written:
             p, sv, _ = rng.choice(written)
-        elif r < 0.8 and written:
+        elif r < 0.75 and written:
             p, sv, _ = rng.choice(written)
             k = rng.random()
             if k < 0.5 and sv:
-                j = rng.randrange(len(sv)); sv = sv[:j] + rng.choice("0123456789.# ,-+ex%pcAFz") + sv[j + (rng.random() < 0.5):]
+                j = rng.randrange(len(sv)); sv = sv[:j] + rng.choice("0123456789.# ,-+ex%pcAFz\u0663\uff15\u00a0") + sv[j + (rng.random() < 0.5):]
             elif k < 0.7: sv = sv + rng.choice([" ", "x", "0", " 1px", ",", "\n"])
             elif k < 0.85: sv = sv[:rng.randrange(len(sv) + 1)]
             else: sv = " " + sv
-        else:
+        elif r < 0.9:
             p = rng.choice(props); sv = rng.choice(hand)
+        else:
+            # colour expressions and their near misses (harness/imsc_common.py ColorGen: trailing characters, components above 255, digits and
+            # white space outside ASCII, inner white space, ...), alone and inside the values that contain a colour
+            _, cs, cats = colgen.sample(); color_cats.update(cats); ncolor += 1
+            p, sv = rng.choice([(s.StyleProperties.Color, cs), (s.StyleProperties.BackgroundColor, cs), (s.StyleProperties.Color, cs),
+                                (s.StyleProperties.TextOutline, cs + " 2px"), (s.StyleProperties.TextShadow, "1px 2px " + cs),
+                                (s.StyleProperties.TextShadow, "1px 2px 3px " + cs + ", 1em 1em"), (s.StyleProperties.TextEmphasis, "filled circle " + cs),
+                                (s.StyleProperties.TextEmphasis, cs + " open after")])
         if p is s.StyleProperties.FontFamily or (p in (s.StyleProperties.Opacity, s.StyleProperties.LuminanceGain) and any(c not in "0123456789+-." for c in sv)):
             # parse_font_families is not transcribed; float() only on the fragment [sign] digits [. digits]
             p = rng.choice([s.StyleProperties.FontSize, s.StyleProperties.Color, s.StyleProperties.Padding, s.StyleProperties.Position, s.StyleProperties.TextShadow])
-        if any(c.isdigit() and not ("0" <= c <= "9") for c in sv): continue
         cls = isp.StyleProperties.BY_MODEL_PROP[p]
         try:
             v = cls.extract(ctx, sv)
@@ -535,7 +543,8 @@ def main():
         defs.append((i, f"Definition c0_{i} := case_extract {pid[p]} {C.text(sv)} {exp}.\n")); xinfo.append((i, p.__name__, sv, kind))
     (bad_x,), broken4 = shards("Cases_C05_ext_", defs, 1)
     xi = {a: (b, c, d) for a, b, c, d in xinfo}
-    run.log(f"extract: {len(defs)} (property, string) pairs ({sum(1 for x in xinfo if x[3] == 'value')} accepted), mismatches {len(bad_x)}" + (f", first {xi[bad_x[0]]}" if bad_x else ""))
+    run.log(f"extract: {len(defs)} (property, string) pairs ({sum(1 for x in xinfo if x[3] == 'value')} accepted; {ncolor} with a colour expression or a near miss: {dict(sorted(color_cats.items()))}), "
+            f"mismatches {len(bad_x)}" + (f", first {xi[bad_x[0]]}" if bad_x else ""))
 
     # ---------------------------------------------------------------- (b), (c) documents: write, re-read, compare
     ndoc = 5000 if thorough else 300
@@ -713,13 +722,15 @@ def main():
     run.cov.update(evaluations=nval + ng + nt + len(xinfo) + nrt + nsnap,
                    distinct_nontrivial=len({(x[0].__name__, repr(x[1])) for x in vinfo}) + len({x[0] for x in ginfo}) + nrt,
                    rule="style values: every property in every value form through from_model / has_px; rationals through format(x,'g') (ties, notation switches); "
-                        "times through to_time_format in the 3 syntaxes x 7 frame rates; written and perturbed strings through extract; canonical documents "
+                        "times through to_time_format in the 3 syntaxes x 7 frame rates; written and perturbed strings through extract, one in ten a colour expression or a "
+                        "near miss of one (trailing characters, components above 255, digits / white space outside ASCII, inner white space); canonical documents "
                         "(all element kinds incl. rp, animation steps, timed regions, initial values, xml:space/lang) x {no config, clock_time, frames, "
                         "clock_time_with_frames, fps only} x 7 frame rates written, serialised, re-read and compared (parameters, tree, offsets, order, specified "
                         "values, snapshots at significant times and midpoints when offsets are representable). distinct_nontrivial = distinct (property, value) "
                         "pairs + distinct rationals + documents compared.",
                    samples=[dict(property=vinfo[0][0].__name__, value=repr(vinfo[0][1]), written=vinfo[0][2]), dict(time=str(tinfo[0]))],
                    documents=ndoc, documents_written=wrote, documents_compared=nrt, snapshot_pairs=nsnap, documents_by_time_mode=stats,
+                   extract_strings=len(xinfo), extract_color_strings=ncolor, extract_color_shapes=dict(sorted(color_cats.items())),
                    findings_hit={k: len(v) for k, v in known_hits.items()}, model_code_mismatches=n_mism)
     run.assumptions += ["floats are compared as the rationals they denote; floats read by the code are identified with the decimal they were read from (repr)",
                         "parse_font_families is outside the model: tts:fontFamily is compared through the round trip only; float() is transcribed on the fragment [sign] digits [. digits] only",
